@@ -17,8 +17,10 @@ import (
 
 type confGen struct {
 	r     *Rng
-	viol  int // percent chance of breaking a rule at each decision
-	noise int // percent chance of odd spellings (case, spaces, invalid names)
+	viol  int // per mille chance of breaking a rule at each decision
+	noise int // per mille chance of odd spellings (case, spaces, invalid names)
+	hier  int // per mille chance of exceeding a budget of the hierarchy
+	single bool // exactly one partition called default
 	paths []confPath
 }
 
@@ -35,13 +37,13 @@ var confOddUsers = []string{"9bad", "a b", "", "u1$x", "u~"}
 var confGroups = []string{"g1", "dev", "ops", "grp:a"}
 var confOddGroups = []string{"g$", "1g", "", "a/b"}
 
-func (g *confGen) bad() bool   { return g.r.Chance(g.viol) }
-func (g *confGen) odd() bool   { return g.r.Chance(g.noise) }
+func (g *confGen) bad() bool { return g.r.Intn(1000) < g.viol }  // per mille
+func (g *confGen) odd() bool { return g.r.Intn(1000) < g.noise } // per mille
 func (g *confGen) pick(l []string) string { return l[g.r.Intn(len(l))] }
 
 // quantity text for a value in base units (vcore: milli)
 func (g *confGen) qty(name string, v int64) string {
-	if g.odd() {
+	if g.odd() && g.r.Chance(40) {
 		return g.pick([]string{"abc", "-1", "1.5", "10K", "5mi", "", "1e3", "10 k i", "9223372036854775808", "8Ei", "10000P", "1\vk", "0x10", "1 0"})
 	}
 	var s string
@@ -121,7 +123,10 @@ func (g *confGen) within(name string, lim int64, has bool) int64 {
 	if !has {
 		return g.amount(name)
 	}
-	if g.bad() {
+	if g.bad() || g.r.Intn(1000) < g.hier {
+		if lim > 1<<61 {
+			return lim
+		}
 		return lim + 1 + int64(g.r.Intn(1000))
 	}
 	if lim <= 0 {
@@ -175,8 +180,9 @@ func (g *confGen) limits(qmax confBudget, qapps uint64, cu, cg confCarried) []co
 			usedU[u] = true
 			l.Users = append(l.Users, u)
 		}
-		if (last && g.r.Chance(40)) || g.r.Chance(4) {
+		if (last && g.r.Chance(40) && !usedU["*"]) || g.bad() {
 			l.Users = append(l.Users, "*")
+			usedU["*"] = true
 		}
 		ng := g.r.Intn(2)
 		if len(l.Users) == 0 {
@@ -193,8 +199,9 @@ func (g *confGen) limits(qmax confBudget, qapps uint64, cu, cg confCarried) []co
 			usedG[gr] = true
 			l.Groups = append(l.Groups, gr)
 		}
-		if (last && len(usedG) > 0 && g.r.Chance(30)) || g.r.Chance(3) {
+		if (last && len(usedG) > 0 && g.r.Chance(30) && !usedG["*"]) || g.bad() {
 			l.Groups = append(l.Groups, "*")
+			usedG["*"] = true
 		}
 		if len(l.Users) == 0 && len(l.Groups) == 0 && !g.bad() {
 			l.Users = []string{g.pick(confUsers)}
@@ -251,7 +258,7 @@ func (g *confGen) limits(qmax confBudget, qapps uint64, cu, cg confCarried) []co
 				}
 			}
 		}
-		if len(l.MaxResources) == 0 || g.r.Chance(50) {
+		if len(l.MaxResources) == 0 || g.r.Chance(50) || (apps != 0 && !g.bad()) {
 			if apps != 0 {
 				l.MaxApplications = 1 + g.r.Next()%apps
 				if g.bad() {
@@ -610,7 +617,10 @@ func (g *confGen) partition(name string) configs.PartitionConfig {
 		}
 	}
 	if g.r.Chance(30) {
-		p.NodeSortPolicy.Type = g.pick([]string{"fair", "binpacking", "", "fair", "binpacking", "bogus", "Fair"})
+		p.NodeSortPolicy.Type = g.pick([]string{"fair", "binpacking", "", "fair", "binpacking"})
+		if g.odd() {
+			p.NodeSortPolicy.Type = g.pick([]string{"bogus", "Fair"})
+		}
 		if g.r.Chance(50) {
 			p.NodeSortPolicy.ResourceWeights = map[string]float64{}
 			for _, rn := range confResNames {
@@ -637,14 +647,18 @@ func (g *confGen) partition(name string) configs.PartitionConfig {
 
 func (g *confGen) config() *configs.SchedulerConfig {
 	c := &configs.SchedulerConfig{}
+	if g.single {
+		c.Partitions = append(c.Partitions, g.partition("default"))
+		return c
+	}
 	names := []string{g.pick([]string{"default", "default", "default", "", "Default"})}
 	switch {
 	case g.r.Chance(6):
-		names = append(names, g.pick([]string{"gpu", "other", "GPU", "default", "Default", ""}))
+		names = append(names, g.pick([]string{"gpu", "other", "GPU", "gpu", "other", "default", "Default", ""}))
 	case g.r.Chance(1):
 		names = nil
 	}
-	if g.r.Chance(2) {
+	if len(names) > 0 && g.r.Chance(2) {
 		names[0] = g.pick([]string{"gpu", "other"})
 	}
 	for _, n := range names {
